@@ -587,6 +587,25 @@ Theorem C17_acceptor_complete :
 Proof. exact accept_decision_complete. Qed.
 Print Assumptions C17_acceptor_complete.
 
+(* ... and it is sound up to its allowances: a pause it accepts (for MinWait <= MaxWait) is the
+   clamp of a value that is the Retry-After delay exactly, or lies within the float64 rounding
+   allowances tol_a, tol_n of the model's exact range [a, a + max(n, 0)] (a = trunc(temp*(1-jitter)),
+   n = trunc(2*jitter*temp)) -- so a pause farther than that from everything the model can produce
+   is rejected *)
+Theorem C17_acceptor_sound :
+  forall guarded maxretry minw maxw e attempt o d,
+    minw <= maxw ->
+    accept_decision guarded maxretry minw maxw e attempt o (ODWait d) = VYes ->
+    attempt < maxretry /\ default_predicate o = PRetry /\
+    exists x, d = clamp minw maxw x /\
+      ((generated_backoff_retry_after_ok (retry_after_secs o) = true /\
+        x = wrap64 (retry_after_secs o * generated_backoff_retry_after_unit)) \/
+       (generated_backoff_retry_after_ok (retry_after_secs o) = false /\
+        qtrunc (exp_a e attempt) - tol_a e attempt <= x <=
+        qtrunc (exp_a e attempt) + Z.max 0 (qtrunc (exp_n e attempt)) + tol_a e attempt + tol_n e attempt)).
+Proof. exact accept_decision_sound. Qed.
+Print Assumptions C17_acceptor_sound.
+
 (* --- the hypotheses are satisfiable: concrete runs ---------------------------------- *)
 
 Definition ex_policy := table_policy default_predicate 3 100 1000 [50; 5000] 7.
@@ -720,6 +739,12 @@ Example ex_blob_push_tok :
   uk_res u = RResp 201 0%N /\ length (attempts (ak_token (uk_post u))) = 2%nat /\
   match uk_put u with Some put => map snd (authk_attempts put) = [b "manifest"; b "manifest"] | None => False end.
 Proof. vm_compute. repeat split; reflexivity. Qed.
+
+(* the acceptor: default backoff at attempt 2 (temp = 1 s): 950 ms is accepted, 2 s is not *)
+Example ex_acceptor :
+  accept_decision true 5 0 100000000000 default_eparams 2 (OStatus 503 [] 0%N) (ODWait 950000000) = VYes /\
+  accept_decision true 5 0 100000000000 default_eparams 2 (OStatus 503 [] 0%N) (ODWait 2000000000) = VNo.
+Proof. vm_compute. split; reflexivity. Qed.
 
 (* Retry-After: 2 within [100ns, 3s]: honoured *)
 Example ex_retry_after :
